@@ -553,7 +553,15 @@ def run(pm, ctx):
     pred = tree.methods["predict"]
     xl = [s_ for s_ in ast.walk(pred) if isinstance(s_, ast.Assign) and isinstance(s_.value, ast.Compare) and "self.thresholds[node]" in norm_src(s_.value)]
     site = "Tree.predict: comparator"
-    if not xl:
+    widened = [s_ for s_ in ast.walk(pred) if isinstance(s_, ast.Assign) and isinstance(s_.value, (ast.BinOp, ast.BoolOp)) and "self.thresholds[node]" in norm_src(s_.value)
+               and any(isinstance(n_, ast.Compare) for n_ in ast.walk(s_.value))
+               and (isinstance(s_.value, ast.BoolOp) or isinstance(s_.value.op, (ast.BitOr, ast.BitAnd, ast.BitXor)))]
+    if not xl and widened:
+        w_ = widened[0]
+        ctx.violation("C09-f", ku.relpath, "Tree.predict", norm_src(w_)[:200], "the mask of the samples sent to the left child is not the plain comparison `feature <= threshold`: it is "
+                      "combined with another test, while fit partitioned the training data with the exact `<=` - predict no longer reproduces the partition "
+                      "(and new points near a threshold get the label of the neighbouring region)", line=w_.lineno, site=site)
+    elif not xl:
         ctx.unrecognised("C09-f", site, "no comparison with thresholds[node]")
     else:
         from ..pm import canon_node
